@@ -14,11 +14,13 @@ META = dict(
         quick="templates: reaction centres of all reactions on k=2 atoms (element in {C,O}, hcount per side 0..1, charge per "
               "side 0..1, bond order per side 0..2) that are hydrogen- and charge-balanced over the centre; substrates: all "
               "shapes on <=3 atoms (element {C,O}, hcount 0..2, charge 0..1, order 1..2, all symbolic; 3-atom substrates with hcount 0..1 and charge 0); forward and "
-              "invert=True; strategies all/comp/bt; implicit-hydrogen mode (implicit_temp=True, explicit_h=False)",
+              "invert=True; strategies all/comp/bt; implicit-hydrogen mode (implicit_temp=True, explicit_h=False); explicit-hydrogen "
+              "mode (default flags) for two concrete templates with hydrogen atoms in the centre (keto-enol shift, MPV transfer "
+              "hydrogenation with two independent hydrogen migrations) on their skeleton with symbolic substituents and every numbering",
         thorough="k=3 templates on substrates <=3 atoms, k=2 templates on substrates with 4 atoms",
     ),
     outside=["smarts_list / _to_smarts (RDKit) and everything said about output strings", "templates with wildcards, "
-             "partial=True", "explicit-hydrogen mode with hydrogen atoms in the centre", "templates that are not balanced "
+             "partial=True", "explicit-hydrogen mode beyond the two listed template families", "templates that are not balanced "
              "over their centre (a centre only contains atoms incident to a changed bond; clause b is claimed for balanced "
              "templates only)"],
     stubs=["NoCanon canonicaliser passed through the public canonicaliser= parameter (identity, constant signature)"],
@@ -123,7 +125,110 @@ def h_instance(E, k, hn, hedges, strategy, invert, hmax_t=1, lite=False):
     E.observe(len(res))
 
 
-HARNESSES = {"instance": h_instance}
+# --------------------------------------------------------------------------- explicit-hydrogen mode, concrete templates
+XH_FAMILIES = {
+    # (heavy atoms: id -> element), explicit template hydrogens, bonds before / after (u, v, order)
+    "MPV": dict(heavy={1: "C", 3: "O", 5: "C", 6: "O"}, hyd=[2, 4],
+                G=[(1, 2, 1), (1, 3, 1), (3, 4, 1), (5, 6, 2)], H=[(1, 3, 2), (5, 2, 1), (5, 6, 1), (6, 4, 1)],
+                # substrate skeleton: template heavy atoms + one substituent on each carbon
+                sub_bonds=[(1, 3, 1), (5, 6, 2), (1, 7, 1), (5, 8, 1)], sub_h={1: 1, 3: 1, 5: 0, 6: 0}),
+    "enol": dict(heavy={1: "C", 3: "C", 4: "O"}, hyd=[2],
+                 G=[(1, 2, 1), (1, 3, 1), (3, 4, 2)], H=[(1, 3, 2), (3, 4, 1), (4, 2, 1)],
+                 sub_bonds=[(1, 3, 1), (3, 4, 2), (3, 7, 1)], sub_h={1: 1, 3: 0, 4: 0}),
+}
+
+
+def changed_bond_graph(its):
+    """nodes = end atoms of bonds whose order changes, labelled (element, hydrogen-count change); edges labelled with the
+    change of order"""
+    import networkx as nx
+
+    g = nx.Graph()
+    for u, v, d in its.edges(data=True):
+        o = d["order"]
+        if o[0] != o[1]:
+            g.add_edge(u, v, delta=o[1] - o[0])
+    for v in g.nodes:
+        t = its.nodes[v]["typesGH"]
+        g.nodes[v]["lab"] = (t[0][0], t[1][2] - t[0][2])
+    return g
+
+
+def h_explicit(E, family):
+    import networkx as nx
+
+    from synkit.Graph.ITS.its_construction import ITSConstruction
+    from synkit.Graph.ITS.its_decompose import get_rc, its_decompose
+    from synkit.Graph.Hyrogen._misc import h_to_implicit
+    from synkit.Synthesis.Reactor.syn_reactor import SynReactor
+    from harness.reactor_common import NoCanon
+    from vf.graphs import iso_formula
+
+    fam = XH_FAMILIES[family]
+    Gt, Ht = nx.Graph(), nx.Graph()
+    for g in (Gt, Ht):
+        for v, el in fam["heavy"].items():
+            g.add_node(v, element=el, aromatic=False, hcount=0, charge=0, atom_map=v)
+        for v in fam["hyd"]:
+            g.add_node(v, element="H", aromatic=False, hcount=0, charge=0, atom_map=v)
+    for u, v, o in fam["G"]:
+        Gt.add_edge(u, v, order=o)
+    for u, v, o in fam["H"]:
+        Ht.add_edge(u, v, order=o)
+    tmpl_its = ITSConstruction.ITSGraph(Gt, Ht)
+    rc = get_rc(tmpl_its)
+    # substrate: the template's heavy skeleton with implicit hydrogens, substituents with symbolic labels, and a
+    # solver-chosen numbering / insertion order (how the SMILES happens to be written)
+    heavy = sorted(fam["heavy"])
+    subs = sorted({v for b in fam["sub_bonds"] for v in b[:2]} - set(heavy))
+    allv = heavy + subs
+    pi = [int(x) for x in E.perm("num", len(heavy))]
+    ids = {v: 1 + pi[i] for i, v in enumerate(heavy)}
+    for j, v in enumerate(subs):
+        ids[v] = len(heavy) + 1 + j
+    sub = nx.Graph()
+    lab = {}
+    for v in allv:
+        if v in fam["heavy"]:
+            el, h = fam["heavy"][v], fam["sub_h"][v] + (E.int("xh%d" % v, 0, 1) if fam["heavy"][v] == "C" else 0)
+        else:
+            el, h = E.choice("sel%d" % v, ["C", "O"]), E.int("sh%d" % v, 0, 1)
+        lab[v] = (el, h)
+    for v in sorted(allv, key=lambda x: ids[x]):
+        sub.add_node(ids[v], element=lab[v][0], aromatic=False, hcount=lab[v][1], charge=0, atom_map=0, neighbors=[])
+    for u, v, o in fam["sub_bonds"]:
+        sub.add_edge(ids[u], ids[v], order=o)
+    R = SynReactor(substrate=sub, template=rc, canonicaliser=NoCanon(), strategy="all")  # explicit_h=True, implicit_temp=False
+    res = R.its_list
+    want_cb = changed_bond_graph(tmpl_its)
+    info = dict(family=family, numbering=ids, n_results=len(res))
+    bad_a, bad_b, bad_c = [], [], []
+    for r in res:
+        l, p = its_decompose(r)
+        li = h_to_implicit(l)
+        ok = set(li.nodes) == set(sub.nodes) and {frozenset(e) for e in li.edges} == {frozenset(e) for e in sub.edges}
+        if not ok:
+            bad_a.append(True)
+        else:
+            for v in sub.nodes:
+                bad_a.append(NOT(EQ((li.nodes[v]["element"], li.nodes[v]["hcount"], li.nodes[v]["charge"]),
+                                    (sub.nodes[v]["element"], sub.nodes[v]["hcount"], sub.nodes[v]["charge"]))))
+            for u, v in sub.edges:
+                bad_a.append(NOT(EQ(li[u][v]["order"], sub[u][v]["order"])))
+        tot = lambda g: SUM([1 if d["element"] == "H" else d["hcount"] for _, d in g.nodes(data=True)])
+        bad_b.append(NOT(EQ(tot(l), tot(p))))
+        bad_b.append(NOT(EQ(SUM([d["charge"] for _, d in l.nodes(data=True)]), SUM([d["charge"] for _, d in p.nodes(data=True)]))))
+        cb = changed_bond_graph(r)
+        bad_c.append(NOT(iso_formula(cb, want_cb, lambda u, v: EQ(cb.nodes[u]["lab"], want_cb.nodes[v]["lab"]),
+                                     lambda e, f: EQ(cb[e[0]][e[1]]["delta"], want_cb[f[0]][f[1]]["delta"]))))
+    E.check(OR(bad_a), "reactant-side-is-the-unchanged-substrate", info)
+    E.check(OR(bad_b), "elements-hydrogens-and-charge-are-conserved", info)
+    E.check(OR(bad_c), "changed-bond-graph-is-isomorphic-to-the-templates", info)
+    E.note(nontrivial=len(res) > 0)
+    E.observe(len(res))
+
+
+HARNESSES = {"instance": h_instance, "explicit": h_explicit}
 
 
 def shards(tier, seed):
@@ -138,6 +243,8 @@ def shards(tier, seed):
                     continue
                 sh.append(dict(h="instance", params=dict(k=2, hn=hn, hedges=he, strategy=strategy, invert=invert,
                                                          lite=(tier == "quick" and hn == 3))))
+    sh.append(dict(h="explicit", params=dict(family="enol")))
+    sh.append(dict(h="explicit", params=dict(family="MPV")))
     if tier == "thorough":
         for hn, he in hosts:
             if hn == 3:
